@@ -431,6 +431,14 @@ class Functor(pg_object.Object, utils.Functor):
             for v in varargs
         ]
       args = args[: len(signature.args)]
+      if (varargs and not override_args
+          and signature.varargs.name in self._specified_args):
+        raise TypeError(
+            f'{signature.id}() got new values for variable positional '
+            f'argument {signature.varargs.name!r}, but \'override_args\' is '
+            f'set to False. Old value: {keyword_args[signature.varargs.name]!r}, '
+            f'new value: {varargs!r}.'
+        )
 
     # Convert positional arguments to keyword arguments so we can map them back
     # later.
